@@ -728,23 +728,22 @@ def cvc5_recheck(E, solver, z3_result, timeout_ms=20000, budget=25):
     if os.environ.get("VERIF_TIER") != "thorough" or _CVC5['n'] >= budget:
         return
     _CVC5['n'] += 1
+    import subprocess
+    import sys
+    import tempfile
+    res = None
     try:
-        import cvc5
-        slv = cvc5.Solver()
-        slv.setOption("tlimit-per", str(timeout_ms))
-        slv.setLogic("QF_NRA")
-        prs = cvc5.InputParser(slv)
-        prs.setStringInput(cvc5.InputLanguage.SMT_LIB_2_6, solver.to_smt2(),
-                           "q")
-        sm = prs.getSymbolManager()
-        res = None
-        while True:
-            cmd = prs.nextCommand()
-            if cmd.isNull():
-                break
-            out = cmd.invoke(slv, sm).strip()
-            if out in ('sat', 'unsat', 'unknown'):
-                res = out
+        with tempfile.NamedTemporaryFile('w', suffix='.smt2',
+                                         delete=True) as f:
+            f.write(solver.to_smt2())
+            f.flush()
+            out = subprocess.run(
+                [sys.executable, '-m', 'vf.cvc5_check', f.name],
+                capture_output=True, text=True, timeout=30,
+                cwd='/verif').stdout.strip().splitlines()
+            res = out[-1] if out else None
+    except subprocess.TimeoutExpired:
+        res = 'unknown'     # killed from outside: cvc5 ignored its limit
     except Exception:
         E.stats.count("cvc5_error")
         return
